@@ -195,12 +195,21 @@ class EngineBase:
         the chosen condition is added to the path condition."""
         if self.pos < len(self.trail):
             i = self.trail[self.pos]
+            if not isinstance(i, int) or i >= len(alts):
+                raise Unsupported("path replay diverged (a different decision point was reached than on the recorded path)")
             self.pos += 1
             self.st.pc.append(alts[i])
             return i
         feas = [i for i, c in enumerate(alts) if self.feasible(c)]
         if not feas:
             raise PathEnd()
+        if len(feas) > 1 and getattr(self, "merge_depth", 0) > 0:
+            # a genuine fork inside a branch that is being merged: the merge is abandoned and the enclosing `if` forks instead
+            # (a merged state stands for ONE path through each branch; forks inside would be explored under a recorded
+            # "merged" outcome that need not hold for them)
+            from .state import MergeFail
+
+            raise MergeFail()
         prefix = self.trail[: self.pos]
         for j in feas[1:]:
             self.pending.append(prefix + [j])
@@ -209,6 +218,21 @@ class EngineBase:
         self.pos += 1
         self.st.pc.append(alts[i])
         return i
+
+    def oracle(self, compute):
+        """an auxiliary solver answer (feasibility / in-engine proof attempt) taken while a path is explored.  Such answers depend
+        on time-outs, so they are RECORDED in the decision trail and re-used when the path is replayed: a path is explored by
+        replaying its prefix, and a different answer on replay would silently misalign every later decision."""
+        if self.pos < len(self.trail):
+            e = self.trail[self.pos]
+            if not (isinstance(e, tuple) and e[0] == "o"):
+                raise Unsupported("path replay diverged (a solver answer was expected where a branch decision is recorded)")
+            self.pos += 1
+            return e[1]
+        v = compute()
+        self.trail = self.trail[: self.pos] + [("o", v)]
+        self.pos += 1
+        return v
 
     def branch(self, cond) -> bool:
         """fork on a condition (Python bool, or SV Bool)"""
